@@ -26,15 +26,17 @@ CLAIMS = {
              "reaches W_TX_PAYLOAD under dynamic payloads is exactly [1,32] and every other length raises ValueError before any SPI/CE effect; with "
              "static payloads the loaded value has exactly the configured length and is buf, buf+zeros or buf[:P]; no public method mutates a caller's "
              "buffer in place; command bytes, flag clearing, CE pulse, SPI framing, read() protocol, list handling. Delivery on air (exactly once, "
-             "in order, pipe attribution) needs two radios and is declined.",
-        ref="DESIGN.md section 5 C01"),
+             "in order, pipe attribution) needs two radios and is declined. The same rules are applied to the sibling driver rf24_lite.RF24, and the "
+             "rules of the layers the clauses rest on are re-run (cached configuration R03.x, pipe-0 discipline R08.x, `with` restore R09.1/2, status accessors R10.x).",
+        ref="DESIGN.md section 5 C01, section 10.5 rounds 6-7"),
     "C02": dict(
         technique="path-sensitive abstract interpretation with a fresh symbolic STATUS byte per SPI transaction (bit roles by (transaction, bit)), exhaustive over the 128 cached STATUS values for the prologue, typestate on flag freshness",
         text="Decides which STATUS bit of which SPI transaction controls every decision of send()/resend() on all paths: wait-loop mask, result bit, "
              "ACK-payload fetch guard, flush prologue for every cached STATUS value, force-retry loop bound and argument passing, resend() "
              "preconditions/ordering, RX_P_NO isolation, and that no flag is tested in the STATUS byte clocked out by the write that clears it. "
-             "Truth of the result with respect to the air and the wall-clock bound depend on the silicon and are declined.",
-        ref="DESIGN.md section 5 C02"),
+             "Truth of the result with respect to the air and the wall-clock bound depend on the silicon and are declined. The same rules are applied to "
+             "the sibling driver rf24_lite.RF24; the pipe-0 appropriation rules R08.x (the auto-ack is heard on pipe 0) are re-run.",
+        ref="DESIGN.md section 5 C02, section 10.5 rounds 6-7"),
     "C08": dict(
         technique="inductive per-method abstract interpretation over pinned combinations of user pipe-0 address / RX_ADDR_P0 content / EN_RXADDR.0 / EN_AA.0; writer whitelist for the user-address field and the CE pin",
         text="Decides for every previous content of RX_ADDR_P0 and every user pipe-0 state that RX entry restores the user's address or closes pipe 0, "
